@@ -40,7 +40,10 @@ def main(c):
                 if a != b:
                     c.violation("build %s and the portable build disagree on program %d" % (cfg, pi), c.save_replay("c03-%s-%d.prog" % (cfg, pi), progs[pi]))
                     break
-    c.cov["configurations"] = list(outs)
+    # the CRC32C code for SSE4.2 without 64-bit words (what a 32-bit x86 build selects) is a configuration of its own
+    exe = g.build(c, "sse42w32")
+    g.run(c, exe, [l for l in lines if l.startswith("crc ")], "cfg_sse42w32", shuffle=False)
+    c.cov["configurations"] = list(outs) + ["sse42w32 (CRC32C only)"]
     c.cov["cross_config_equal"] = diff == 0
     c.cov["rule"] = ("the SHA-256 / CRC32C / AES / AES-CTR input classes of C01 and C02 (alignments 0..15, lengths around the 8-byte and 16-byte thresholds, partitions that "
                      "switch between accelerated and portable code inside one stream, long streams across counter carries) executed by five builds: all features, "
